@@ -465,6 +465,18 @@ func (fr *frame) visit(instr ssa.Instruction) int {
 			it := &mapIter{mp: x, kz: m.zero(mt.Key()), vz: m.zero(mt.Elem())}
 			if x != nil {
 				it.ents = x.E
+				rev := m.mapReverse
+				if m.mapFlips > 0 && len(x.E) >= 2 && m.Choose(2) == 1 {
+					m.mapFlips--
+					rev = !rev
+				}
+				if rev {
+					rev := make([]mapEntry, len(x.E))
+					for i, e := range x.E {
+						rev[len(x.E)-1-i] = e
+					}
+					it.ents = rev
+				}
 			} else {
 				it.mp = &Map{}
 			}
